@@ -189,3 +189,14 @@ Definition framed (c : cfg) : bool :=
 (* bytes handed to the transport, in order *)
 Definition op_data (o : top) : list N := match o with TWrite d => d | TFlush => [] end.
 Definition stream (ops : list top) : list N := flat_map op_data ops.
+
+(* ---- calling contexts ----
+   Where a sending call is made from: directly, from a synchronous request / notification handler
+   running inside the read loop's handle_message, from a coroutine handler after an await, from a
+   @thread handler on a pool thread, or by the protocol itself when it replies.  None of the functions
+   above takes the context as an argument or reads state that depends on it (there is no "batching"
+   or "inside a handler" flag on the protocol or on StdoutWriter): the operations of a send are the
+   same list in every context.  The correspondence run observes the sends in each of these contexts
+   under the real read loops and compares them with this one list. *)
+Inductive ctx := Direct | InSyncHandler | InAsyncHandler | InThreadHandler | LoopReply.
+Definition send_ops_in (x : ctx) (c : cfg) (s : send) : list top := send_ops c s.
